@@ -382,6 +382,10 @@ func execBz(o *Out, id, line string) {
 			o.Emit(id, line, "", "panic", kv["in"])
 			return
 		}
+		memOracle(o, line, "bzip2", 32<<20, 256, len(in), func() int {
+			zr, _ := dbzip2.NewReader(bytes.NewReader(in), nil)
+			return drain(zr)
+		})
 		cls := bzClass(err)
 		o.Count("dsnet-" + cls)
 		key := ""
